@@ -81,6 +81,53 @@ theorem C16_filters_skip (a c : List CVal) (cli sfile user : Source) (k : Str)
     allContents [cli, sfile, user] k = a ++ c := by
   simp [allContents, List.filterMap, h1, h2, h3, List.flatMap]
 
+/-! ## the union option is type-checked in every source (repair D13, `resolveMain`) -/
+
+/-- "a value of the wrong type is rejected rather than silently replaced", for the one option that is read from *every* source:
+    a value of `input.exclude_filters` that is not a list makes the run fail in whichever source it stands — also below a source
+    that supplies a well-typed list, where the template (which sees the winning value only) does not look -/
+theorem C16_filters_any_source_rejected (sources : List Source) (src : Source) (v : CVal)
+    (hs : src ∈ sources) (hv : src.get filtersKey = some v) (hl : isListVal v = false) :
+    ∃ k, resolveMain sources = .error k := by
+  unfold resolveMain
+  cases h : resolveAll sources with
+  | error k => exact ⟨k, rfl⟩
+  | ok vals =>
+    refine ⟨filtersKey, ?_⟩
+    have : filtersWellTyped sources = false := by
+      unfold filtersWellTyped
+      rw [Bool.eq_false_iff]
+      intro hall
+      rw [List.all_eq_true] at hall
+      have := hall v (List.mem_filterMap.mpr ⟨src, hs, hv⟩)
+      rw [hl] at this; exact Bool.false_ne_true this
+    simp [this]
+
+/-- conversely a run that gets as far as `document` has a list (or nothing) in every source, and the patterns in effect are the
+    concatenation over command line, `-s` file and user file, in that order -/
+theorem C16_filters_main (sources : List Source) (vals : List (Str × Option CVal)) (fs : List CVal)
+    (h : resolveMain sources = .ok (vals, fs)) :
+    (∀ src ∈ sources, ∀ v, src.get filtersKey = some v → ∃ xs, v = .list xs) ∧
+    fs = allContents (sources.take 3) filtersKey ∧ resolveAll sources = .ok vals := by
+  unfold resolveMain at h
+  cases hr : resolveAll sources with
+  | error k => rw [hr] at h; cases h
+  | ok vals' =>
+    rw [hr] at h
+    by_cases hw : filtersWellTyped sources = true
+    · simp only [hw, if_true, Except.ok.injEq, Prod.mk.injEq] at h
+      refine ⟨?_, h.2.symm, by rw [h.1]⟩
+      intro src hs v hv
+      unfold filtersWellTyped at hw
+      rw [List.all_eq_true] at hw
+      have := hw v (List.mem_filterMap.mpr ⟨src, hs, hv⟩)
+      cases v <;> simp [isListVal] at this ⊢
+    · simp [hw] at h
+
+/-! non-vacuity: a bare string in the `-s` file below a list from the command line -/
+example : ∃ k, resolveMain [[(filtersKey, .list [.str (lit "c1")])], [(filtersKey, .str (lit "build"))], [], [(filtersKey, .list [])]] = .error k :=
+  C16_filters_any_source_rejected _ [(filtersKey, .str (lit "build"))] (.str (lit "build")) (by simp) (by simp [Source.get]) rfl
+
 /-- a relative output directory is resolved against the current directory … -/
 theorem C16_outdir_cwd (cwd path : Str) (o : Origin) :
     resolveDir cwd false o false path = cwd ++ '/' :: path := by simp [resolveDir]
